@@ -503,11 +503,45 @@ structure NodeId where
   dc : Bytes
 deriving DecidableEq, Repr
 
+/-- the six builtin templates (`aclTemplatedPoliciesList`, agent/structs/acl_templated_policy.go) -/
+inductive Tmpl | service | node | dns | nomadServer | apiGateway | nomadClient
+deriving DecidableEq, Repr
+
+/-- templates with a non-empty schema: their variables (`name`) are rendered into the rules and take
+    part in `ACLTemplatedPolicies.Deduplicate`; the other templates ignore their variables -/
+def Tmpl.hasVars : Tmpl → Bool
+  | .service | .node | .apiGateway => true
+  | _ => false
+
+def Tmpl.tag : Tmpl → Nat
+  | .service => 0 | .node => 1 | .dns => 2 | .nomadServer => 3 | .apiGateway => 4 | .nomadClient => 5
+
+/-- `structs.ACLTemplatedPolicy` -/
+structure TpId where
+  tmpl : Tmpl
+  name : Bytes
+  dcs : List Bytes
+deriving DecidableEq, Repr
+
+/-- what the template is rendered with (nothing for the templates without variables) -/
+def TpId.keyName (t : TpId) : Bytes := if t.tmpl.hasVars then t.name else []
+
+/-- template name and, for templates with a schema, the variables -/
+def TpId.key (t : TpId) : Tmpl × Bytes := (t.tmpl, t.keyName)
+
+/-- `sameDatacenterScope`: the two lists name the same set of datacenters -/
+def sameScope (a b : List Bytes) : Bool := a.all (fun x => b.contains x) && b.all (fun x => a.contains x)
+
+/-- the duplicate test of `ACLTemplatedPolicies.Deduplicate` (/repo 13d014a): same template, same
+    datacenter scope (as a set) and — for templates with a schema — the same variables -/
+def TpId.dup (s t : TpId) : Bool := s.tmpl = t.tmpl && sameScope s.dcs t.dcs && s.keyName = t.keyName
+
 structure Role where
   id : Bytes
   policies : List Bytes
   svcs : List SvcId
   nodes : List NodeId
+  tps : List TpId
 deriving DecidableEq, Repr
 
 structure Token where
@@ -516,6 +550,7 @@ structure Token where
   roles : List Bytes
   svcs : List SvcId
   nodes : List NodeId
+  tps : List TpId
 deriving DecidableEq, Repr
 
 /-- the state store behind the resolver backend (server mode: everything resolves locally) -/
@@ -582,20 +617,54 @@ def nodeTemplate (n : Bytes) : Policy :=
 def svcDoc (s : SvcId) : Doc := ⟨0 :: s.name, 0, 0, s.dcs, svcTemplate s.name⟩
 def nodeDoc (n : NodeId) : Doc := ⟨1 :: n.name, 0, 0, [n.dc], nodeTemplate n.name⟩
 
+/-- policies/ce/{service,node,dns,nomad-server,api-gateway,nomad-client}.hcl rendered with `n` -/
+def tpTemplate : Tmpl → Bytes → Policy
+  | .service, n => svcTemplate n
+  | .node, n => nodeTemplate n
+  | .dns, _ => { Policy.nil with rules := [wr .node true [] .read, wr .service true [] .read, wr .query true [] .read] }
+  | .nomadServer, _ =>
+    { Policy.nil with acl := .lvl .write,
+                      rules := [wr .agent true [] .read, wr .node true [] .read, wr .service true [] .write] }
+  | .apiGateway, n =>
+    { Policy.nil with mesh := .lvl .read,
+                      rules := [wr .node true [] .read, wr .service true [] .read, wr .service false n .write] }
+  | .nomadClient, _ =>
+    { Policy.nil with rules := [wr .agent true [] .read, wr .node true [] .read, wr .service true [] .write,
+                                wr .key true [] .read] }
+
+/-- `ACLTemplatedPolicy.SyntheticPolicy`: service / node identities are rendered through the same
+    templates, so `builtin/service{web}` and the service identity `web` give the same policy id -/
+def tpDoc (t : TpId) : Doc := ⟨t.tmpl.tag :: t.keyName, 0, 0, t.dcs, tpTemplate t.tmpl t.keyName⟩
+
+/-- `ACLTemplatedPolicies.Deduplicate`: an entry is dropped iff an entry kept before it is a duplicate
+    of it (`seen` = the entries kept so far, the Go slice `out`); input order is preserved -/
+def dedupTpsAux (seen : List TpId) : List TpId → List TpId
+  | [] => []
+  | t :: ts => if seen.any (fun s => s.dup t) then dedupTpsAux seen ts else t :: dedupTpsAux (t :: seen) ts
+
+def dedupTps (xs : List TpId) : List TpId := dedupTpsAux [] xs
+
+/-- the synthetic policies of `resolvePoliciesForIdentity` -/
+def synthDocs (t : Token) (roles : List Role) : List Doc :=
+  (dedupSvcs (t.svcs ++ roles.flatMap (·.svcs))).map svcDoc ++
+  (dedupNodes (t.nodes ++ roles.flatMap (·.nodes))).map nodeDoc ++
+  (dedupTps (t.tps ++ roles.flatMap (·.tps))).map tpDoc
+
+/-- the early return of `resolvePoliciesForIdentity`: nothing is linked -/
+def Token.noLinks (t : Token) : Bool :=
+  t.policies.isEmpty && t.svcs.isEmpty && t.roles.isEmpty && t.nodes.isEmpty && t.tps.isEmpty
+
 /-- `filterPoliciesByScope` (a policy is appended once per matching datacenter entry, as in the code) -/
 def filterByScope (dc : Bytes) (ds : List Doc) : List Doc :=
   ds.flatMap fun d => if d.dcs.isEmpty then [d] else (d.dcs.filter (· = dc)).map fun _ => d
 
 /-- `resolvePoliciesForIdentity`, given how a role id and a policy id resolve -/
 def policiesForV (role : Bytes → Option Role) (doc : Bytes → Option Doc) (dc : Bytes) (t : Token) : List Doc :=
-  if t.policies.isEmpty && t.svcs.isEmpty && t.roles.isEmpty && t.nodes.isEmpty then []
+  if t.noLinks then []
   else
     let roles := t.roles.filterMap role
     let pids := dedupeSorted (t.policies ++ roles.flatMap (·.policies))
-    let svcs := dedupSvcs (t.svcs ++ roles.flatMap (·.svcs))
-    let nodes := dedupNodes (t.nodes ++ roles.flatMap (·.nodes))
-    let synth := svcs.map svcDoc ++ nodes.map nodeDoc
-    filterByScope dc (pids.filterMap doc ++ synth)
+    filterByScope dc (pids.filterMap doc ++ synthDocs t roles)
 
 /-- `resolvePoliciesForIdentity` in server mode: roles and policies come from the local state store -/
 def policiesFor (s : Store) (dc : Bytes) (t : Token) : List Doc := policiesForV s.role s.doc dc t
